@@ -425,22 +425,34 @@ pub fn sweep(ctx: &Ctx, st: &mut Stats, prop: &'static str, stride: u64, chk: fn
     })
 }
 
-/// images of 65536+ pixels (size-gated / threaded paths): one per curve and direction, pixel counts that
-/// are divisible by no small number
+/// images of 65536+ pixels (size-gated / threaded paths) for every curve and direction: pixel counts that
+/// are divisible by no small number, and the standard UHD / 4K / 8K frame sizes
 pub fn large_images(ctx: &Ctx, st: &mut Stats, prop: &'static str, chk: fn(&str, &Case, &mut Stats) -> Result<(), Violation>, dirs: &[Dir]) -> Vec<Violation> {
     let curves: Vec<TC> = if ctx.light { vec![TC::BT1886, TC::SRGB, TC::PerceptualQuantizer, TC::HybridLogGamma] } else { SUP_TC.to_vec() };
+    // every (curve, direction) gets one image of a rotating odd size, one UHD-1 frame (3840x2160: where "large
+    // frame" paths typically switch on) and, in the thorough tier, a DCI 4K frame; every third one an 8K frame
+    const UHD: usize = 3840 * 2160;
+    let small: [usize; 4] = if ctx.quick() { [65_537, 131_101, 262_147, 4_194_307] } else { [65_537, 262_147, 4_194_307, 8_300_401] };
     let mut jobs = Vec::new();
-    for t in curves {
-        for &d in dirs {
-            jobs.push((t, d));
+    for (i, t) in curves.iter().enumerate() {
+        for (k, &d) in dirs.iter().enumerate() {
+            let idx = i * dirs.len() + k;
+            jobs.push((*t, d, small[idx % 4]));
+            if !ctx.light {
+                jobs.push((*t, d, UHD));
+                if !ctx.quick() {
+                    jobs.push((*t, d, 4096 * 2160));
+                    if idx % 3 == 0 {
+                        jobs.push((*t, d, 7680 * 4320));
+                    }
+                }
+            }
         }
     }
     let seed0 = ctx.seed;
-    let ctx_quick = ctx.quick();
     par_sweep(ctx, st, jobs.len() as u64, |lo, hi, st| {
         for j in lo..hi {
-            let (t, d) = jobs[j as usize];
-            let pixels = if ctx_quick { [65_537usize, 131_101, 262_147, 4_194_307][(j % 4) as usize] } else { [65_537usize, 262_147, 4_194_307, 8_300_401][(j % 4) as usize] };
+            let (t, d, pixels) = jobs[j as usize];
             let case = Case { t, dir: d, vals: Vals::Seeded { stratum: (j % 2) as u8, seed: mix64(seed0 ^ j ^ 0xB16), n: pixels * 3 }, mates: None };
             let mut local = Stats::new();
             local.sample_budget = 0;
@@ -465,6 +477,10 @@ pub fn run(ctx: &Ctx, st: &mut Stats) -> Vec<Violation> {
     if !v.is_empty() {
         return v;
     }
+    v.extend(super::soak::run(ctx, st, "C03", soak_jobs(ctx)));
+    if !v.is_empty() {
+        return v;
+    }
     let stride = if ctx.light { 1021 } else { ctx.pick(257, 1) };
     v.extend(sweep(ctx, st, "C03", stride, check_named, &[Dir::ToLinear, Dir::ToGamma]));
     if stride == 1 && v.is_empty() {
@@ -475,9 +491,30 @@ pub fn run(ctx: &Ctx, st: &mut Stats) -> Vec<Violation> {
     v
 }
 
+/// long single-thread histories (soak.rs): neighbouring curves in the same direction, and the two directions of a curve
+fn soak_jobs(ctx: &Ctx) -> Vec<super::soak::Job> {
+    use super::soak::{with_periods, Side, PERIODS};
+    use crate::conv::{Edge, Kind};
+    let mk = |t: TC| crate::api::cfg(yuvxyb::MatrixCoefficients::BT709, t, yuvxyb::ColorPrimaries::BT709, 10, false, (0, 0));
+    let mut jobs = Vec::new();
+    for (i, t) in SUP_TC.iter().enumerate() {
+        if ctx.light && i % 4 != 0 {
+            continue;
+        }
+        let n = SUP_TC[(i + 1) % SUP_TC.len()];
+        jobs.extend(with_periods(Side { kind: Kind::Rgb, edge: Edge::RgbToLin, cfg: mk(*t) }, Side { kind: Kind::Rgb, edge: Edge::RgbToLin, cfg: mk(n) }, &PERIODS));
+        jobs.extend(with_periods(Side { kind: Kind::Lin, edge: Edge::LinToRgb, cfg: mk(*t) }, Side { kind: Kind::Lin, edge: Edge::LinToRgb, cfg: mk(n) }, &PERIODS));
+        jobs.extend(with_periods(Side { kind: Kind::Rgb, edge: Edge::RgbToLin, cfg: mk(*t) }, Side { kind: Kind::Lin, edge: Edge::LinToRgb, cfg: mk(*t) }, &PERIODS));
+    }
+    jobs
+}
+
 pub fn replay(v: &Value) -> Result<(), String> {
+    if v.get("part").and_then(|p| p.as_str()) == Some("soak") {
+        return super::soak::replay("C03", v);
+    }
     let case = Case::from_json(v).ok_or("bad case")?;
     check(&case, &mut Stats::new()).map_err(|v| v.message)
 }
 
-pub const RULE: &str = "cases = (curve in 14 supported, direction, batch of 1..768 values of [0,1] from 8 strata: uniform value, uniform bit pattern, +-64 ulp around every curve threshold, powers of two +-4 ulp, subnormal/tiny, dense below 1, feedback chain (each value is the library's result for the previous one), runs of repeated values, one-sided images of 4100+ samples with outliers at their ends; in a quarter of the cases each checked value sits in a pixel whose other two components are out-of-range mates) generated by proptest, plus one image of 65537 / 131101 / 262147 / 4194307 (thorough: 8300401) pixels per curve and direction, plus a strided (quick) or complete (thorough) enumeration of all f32 in [0,1] in blocks of 65536; each value compared with the f64 defining formula (tol 2.5e-4; PQ to_gamma 5.7e-4; builds without fastmath 5e-5), Linear and BT.1886 aliases compared bitwise; non-trivial = batch containing a value strictly inside (0,1); distinct = by hash of (curve, direction, value bits)";
+pub const RULE: &str = "cases = (curve in 14 supported, direction, batch of 1..768 values of [0,1] from 8 strata: uniform value, uniform bit pattern, +-64 ulp around every curve threshold, powers of two +-4 ulp, subnormal/tiny, dense below 1, feedback chain (each value is the library's result for the previous one), runs of repeated values, one-sided images of 4100+ samples with outliers at their ends; in a quarter of the cases each checked value sits in a pixel whose other two components are out-of-range mates) generated by proptest, plus one image of 65537 / 131101 / 262147 / 4194307 (thorough: 8300401) pixels per curve and direction, plus long single-thread call histories (periods 255, 256, 65535, 65536: the same value under neighbouring curves / the other direction exactly one period later must still convert like inside a whole image), plus a strided (quick) or complete (thorough) enumeration of all f32 in [0,1] in blocks of 65536; each value compared with the f64 defining formula (tol 2.5e-4; PQ to_gamma 5.7e-4; builds without fastmath 5e-5), Linear and BT.1886 aliases compared bitwise; non-trivial = batch containing a value strictly inside (0,1); distinct = by hash of (curve, direction, value bits)";
